@@ -1346,6 +1346,63 @@ func isGlobalUse(id *ast.Ident, own map[string]*ast.ValueSpec, unresolved map[*a
 	return unresolved[id]
 }
 
+// containerVars: package-level variables holding a standard-library container that is not
+// safe for concurrent use (a bytes.Buffer, a strings.Builder, ...), by value ("value") or
+// through a pointer ("pointer"). Nothing assigns to such a variable, yet its methods change
+// it: a call of any method but the known read-only ones, and taking its address, count as
+// writes for the conflict detector. (Names are per package run; mkoverlay handles one
+// package's files at a time and a clash between packages only adds instrumentation.)
+var containerVars = map[string]string{}
+
+var containerTypes = map[string]bool{"bytes.Buffer": true, "strings.Builder": true, "bufio.Writer": true, "bufio.Reader": true, "bufio.Scanner": true, "list.List": true, "rand.Rand": true, "tabwriter.Writer": true}
+var containerMakers = map[string]bool{"bytes.NewBuffer": true, "bytes.NewBufferString": true, "bufio.NewWriter": true, "bufio.NewReader": true, "bufio.NewScanner": true, "list.New": true, "rand.New": true}
+var containerReadOnly = map[string]bool{"String": true, "Bytes": true, "Len": true, "Cap": true, "Available": true, "Front": true, "Back": true, "Buffered": true, "Size": true}
+
+func selName(e ast.Expr) string {
+	if se, ok := e.(*ast.SelectorExpr); ok {
+		if x, ok := se.X.(*ast.Ident); ok {
+			return x.Name + "." + se.Sel.Name
+		}
+	}
+	return ""
+}
+
+func containerKind(vs *ast.ValueSpec, name string) string {
+	typeKind := func(t ast.Expr) string {
+		if containerTypes[selName(t)] {
+			return "value"
+		}
+		if st, ok := t.(*ast.StarExpr); ok && containerTypes[selName(st.X)] {
+			return "pointer"
+		}
+		return ""
+	}
+	if vs.Type != nil {
+		return typeKind(vs.Type)
+	}
+	for i, n := range vs.Names {
+		if n.Name != name || i >= len(vs.Values) {
+			continue
+		}
+		switch v := vs.Values[i].(type) {
+		case *ast.CompositeLit:
+			return typeKind(v.Type)
+		case *ast.UnaryExpr:
+			if cl, ok := v.X.(*ast.CompositeLit); ok && v.Op == token.AND && containerTypes[selName(cl.Type)] {
+				return "pointer"
+			}
+		case *ast.CallExpr:
+			if id, ok := v.Fun.(*ast.Ident); ok && id.Name == "new" && len(v.Args) == 1 && containerTypes[selName(v.Args[0])] {
+				return "pointer"
+			}
+			if containerMakers[selName(v.Fun)] {
+				return "pointer"
+			}
+		}
+	}
+	return ""
+}
+
 // mutableGlobals: package-level variables that some function other than init assigns to
 // (the variable itself, an element or a field of it).
 func mutableGlobals(files []string) map[string]bool {
@@ -1370,6 +1427,14 @@ func mutableGlobals(files []string) map[string]bool {
 		ps = append(ps, parsed{file, own})
 	}
 	mutable := map[string]bool{}
+	for _, p := range ps {
+		for n, vs := range p.own {
+			if k := containerKind(vs, n); k != "" {
+				mutable[n] = true
+				containerVars[n] = k
+			}
+		}
+	}
 	for _, p := range ps {
 		unresolved := map[*ast.Ident]bool{}
 		for _, id := range p.file.Unresolved {
@@ -1437,6 +1502,32 @@ func instrumentGlobals(pkg, path string, src []byte, mutable map[string]bool, ad
 		}
 		return true
 	})
+	// containers: x.Method(...) with a method that may change x, and &x, are writes; through a
+	// pointer the write is to what it points to
+	pointee := map[*ast.Ident]bool{}
+	ast.Inspect(file, func(n ast.Node) bool {
+		switch v := n.(type) {
+		case *ast.CallExpr:
+			if se, ok := v.Fun.(*ast.SelectorExpr); ok {
+				if id, ok := se.X.(*ast.Ident); ok && containerVars[id.Name] != "" && !containerReadOnly[se.Sel.Name] {
+					writes[id] = true
+					pointee[id] = containerVars[id.Name] == "pointer"
+				}
+			}
+			// a pointer container handed to a function: the callee may change what it points to
+			for _, a := range v.Args {
+				if id, ok := a.(*ast.Ident); ok && containerVars[id.Name] == "pointer" {
+					writes[id] = true
+					pointee[id] = true
+				}
+			}
+		case *ast.UnaryExpr:
+			if id, ok := v.X.(*ast.Ident); ok && v.Op == token.AND && containerVars[id.Name] == "value" {
+				writes[id] = true
+			}
+		}
+		return true
+	})
 	type edit struct {
 		from, to int
 		text     string
@@ -1461,6 +1552,15 @@ func instrumentGlobals(pkg, path string, src []byte, mutable map[string]bool, ad
 			}
 			from, to := fset.Position(id.Pos()).Offset, fset.Position(id.End()).Offset
 			site := strconv.Quote(fmt.Sprintf("%s:%d %s", rel, fset.Position(id.Pos()).Line, id.Name))
+			if pointee[id] {
+				edits = append(edits, edit{from, to, fmt.Sprintf("verifrt.WV(%s, %s)", id.Name, site)})
+				return true
+			}
+			if containerVars[id.Name] == "pointer" && !writes[id] {
+				// a read-only method through the pointer reads what it points to
+				edits = append(edits, edit{from, to, fmt.Sprintf("verifrt.RV(%s, %s)", id.Name, site)})
+				return true
+			}
 			edits = append(edits, edit{from, to, fmt.Sprintf("(*verifrt.%s(&%s, %s))", fn, id.Name, site)})
 			return true
 		})
